@@ -83,10 +83,15 @@ impl Runtime {
             // the pid will use as the proc_id
             proc_id = pid.to_string();
         }
-        let proc = self.cache.proc(&proc_id, self);
         // the id is taken from the moment a start is accepted, not only once the spawned
-        // launch has put the process into the cache
-        if proc.is_some() || !self.starting.lock().unwrap().insert(proc_id.clone()) {
+        // launch has put the process into the cache. It is looked up among the starting ones
+        // first: a process that is being launched may have its row in the store already, and
+        // looking there would load a second instance of it into the cache
+        let is_new = self.starting.lock().unwrap().insert(proc_id.clone());
+        if !is_new || self.cache.proc(&proc_id, self).is_some() {
+            if is_new {
+                self.starting.lock().unwrap().remove(&proc_id);
+            }
             return Err(ActError::Action(format!(
                 "proc_id({proc_id}) is duplicated in running process list"
             )));
